@@ -28,7 +28,12 @@ func stubTabNewWriter(output io.Writer, minwidth, tabwidth, padding int, padchar
 	return &tabwriter.Writer{}
 }
 
-func stubTabWrite(w *tabwriter.Writer, buf []byte) (int, error) { return len(buf), nil }
+var tabWritten []byte // everything the code wrote into the tab-writer (the cells)
+
+func stubTabWrite(w *tabwriter.Writer, buf []byte) (int, error) {
+	tabWritten = append(tabWritten, buf...)
+	return len(buf), nil
+}
 
 func stubTabFlush(w *tabwriter.Writer) error {
 	for i, row := range tabRows {
@@ -150,4 +155,57 @@ func HarnessC18Quote() {
 		verifAssert(string(word) == string(want[i]), "C18.echo-gets-the-row-as-one-literal-word")
 	}
 	verifReach("C18.quote.end")
+}
+
+func isRowSpace(b byte) bool { return b == ' ' || b == '\r' }
+
+// HarnessC18Rows: row fidelity, front half: what reaches the table for ONE tagged line of m
+// arbitrary ASCII bytes (free of the tab-writer's control bytes TAB, VT, FF, and of NUL and
+// newline): the first word as the name cell, the remainder - byte for byte, inner spacing
+// included - as the description cell.
+func HarnessC18Rows() {
+	m := verifParam("m")
+	line := nondetBytes(m, 0)
+	for i := range line {
+		line[i] &= 0x7f
+		verifAssume(line[i] != 0 && line[i] != '\n' && line[i] != '\t' && line[i] != '\v' && line[i] != '\f')
+	}
+	tabRows, tabWritten = nil, nil
+	payload := "f() { :; }\n" + DocPrefix + string(line) + "\nnot a doc line\n"
+	_, err := GenFuncList(payload)
+	verifAssert(err == nil, "C18.rows.no-error")
+	// reference: trim, cut at the first space, trim the remainder
+	a, b := 0, len(line)
+	for a < b && isRowSpace(line[a]) {
+		a++
+	}
+	for b > a && isRowSpace(line[b-1]) {
+		b--
+	}
+	want := ListFuncName + "\t- " + ListFuncDesc + "\n"
+	if a < b {
+		sp := a
+		for sp < b && line[sp] != ' ' {
+			sp++
+		}
+		name := line[a:sp]
+		d := sp
+		for d < b && isRowSpace(line[d]) {
+			d++
+		}
+		// a carriage return inside the first word belongs to the word; at its edges it is trimmed
+		na, nb := 0, len(name)
+		for na < nb && isRowSpace(name[na]) {
+			na++
+		}
+		for nb > na && isRowSpace(name[nb-1]) {
+			nb--
+		}
+		want += string(name[na:nb]) + "\t- " + string(line[d:b]) + "\n"
+	}
+	if verifCanary() {
+		want += " "
+	}
+	verifAssert(string(tabWritten) == want, "C18.rows.name-is-first-word-description-is-the-remainder-unchanged")
+	verifReach("C18.rows.end")
 }
